@@ -1,9 +1,9 @@
-(** Decoding of an in-range key of a design of fragment F1 in closed form.
+(** Decoding of an in-range key of a design of fragment F2 in closed form.
     Proof file. *)
 From Coq Require Import ZArith List Bool Arith Lia.
 From SP Require Import Design.Flat Design.Layout Comb.CombModel Comb.CombSpec Random.Enum Random.Frag
-  Random.RunLemmas Random.Frag0Enum.
-From SP Require Comb.PermProofs Comb.RadixProofs.
+  Random.RunLemmas Random.FragPerm Random.Frag0Enum.
+From SP Require Comb.PermProofs Comb.RadixProofs Comb.StackProofs.
 Import ListNotations.
 Open Scope nat_scope.
 Set Default Proof Using "All".
@@ -104,29 +104,34 @@ Qed.
 
 Section F0D.
 Variable fb : flat.
-Hypothesis HF : frag1 fb = true.
+Hypothesis HF : frag2 fb = true.
 Hypothesis Hq : 0 < f0_q fb.
 
 Local Notation c := (the_crossing fb).
 Local Notation n := (length (fl_design fb)).
 Local Notation q := (f0_q fb).
+Local Notation C := (f0_C fb).
+Local Notation cws := (f0_cws fb).
 Local Notation inst := (f0_instances fb).
 Local Notation ubi := (f0_ubi fb).
-Local Notation en := (f0_enum fb).
 
 (** the unrankers, unwrapped *)
 Definition perm_of (tc : nat) (c0 : Z) : list Z :=
-  match compute_jth_permutation_prefix (Z.of_nat q) (Z.of_nat tc) c0 with Ok p => p | Err _ => [] end.
+  match p_U (f0_cws fb) tc c0 with Some p => p | None => [] end.
 Definition combo_of (tc nl : nat) (idx : Z) : list Z :=
   match compute_jth_combination (Z.of_nat tc) (Z.of_nat nl) idx with Ok p => p | Err _ => [] end.
 
-Lemma perm_of_spec tc c0 : tc <= q -> (0 <= c0 < f0_perms fb tc)%Z ->
-  compute_jth_permutation_prefix (Z.of_nat q) (Z.of_nat tc) c0 = Ok (perm_of tc c0) /\
-  length (perm_of tc c0) = tc /\ injective_below (Z.of_nat q) (perm_of tc c0) /\
-  perm_rank (Z.of_nat q) (perm_of tc c0) = c0.
+(** the word of an index at which the unranker is defined: a word over the
+    crossing instances that uses none more often than its multiplicity *)
+Lemma perm_of_spec tc c0 : tc <= C -> (0 <= c0 < f0_N fb tc)%Z -> p_U cws tc c0 <> None ->
+  bounded_word cws (Z.of_nat tc) (perm_of tc c0) /\
+  length (perm_of tc c0) = tc /\ Forall (fun x => (0 <= x < Z.of_nat q)%Z) (perm_of tc c0) /\
+  p_R cws (perm_of tc c0) = c0.
 Proof.
-  intros Hle Hr. destruct (PermProofs.perm_prefix_bij q tc Hle) as [H1 _].
-  destruct (H1 c0 Hr) as (p & Hp & Hl & Hi & Hk). unfold perm_of. rewrite Hp. auto.
+  intros Hle Hr Hd. unfold perm_of. destruct (p_U cws tc c0) as [p|] eqn:E; [|contradiction].
+  destruct (p_U_spec cws (f0_cws_nonneg fb HF) tc c0 p ltac:(rewrite (f0_p_C fb HF); exact Hle) Hr E) as [Hb HR].
+  split; [exact Hb|]. destruct (bw_parts cws tc p Hb) as (Hl & Hs & _).
+  rewrite (f0_cws_length fb HF) in Hs. auto.
 Qed.
 
 Lemma combo_of_spec tc nl idx : (0 <= idx < Z.of_nat nl ^ Z.of_nat tc)%Z ->
@@ -146,8 +151,8 @@ Qed.
 
 Definition comp_ok (tc : nat) (cp : comp) : Prop :=
   let '(c0, c1, c2) := cp in
-  (0 <= c0 < f0_perms fb tc)%Z /\
-  c1 = zeros (if tc =? q then q else tc) /\
+  (0 <= c0 < f0_N fb tc)%Z /\ p_U cws tc c0 <> None /\
+  c1 = zeros tc /\
   Forall2 (fun f idx => (0 <= idx < Z.of_nat (length (f0_L fb f)) ^ Z.of_nat tc)%Z) ubi c2.
 
 (** level number [d] (an index into the admitted levels) of factor [g] *)
@@ -171,104 +176,6 @@ Definition spec_tvs (tc : nat) (cp : comp) : list asg :=
 
 
 
-
-
-Lemma full_round_f0 tc : full_round en (Z.of_nat tc) = (tc =? q).
-Proof.
-  unfold full_round, q_instances. cbn [en_base f0_enum eb_instances f0_base eb_unweighted].
-  rewrite f0_instances_length by exact HF. rewrite andb_true_r.
-  destruct (tc =? q) eqn:E.
-  - apply Nat.eqb_eq in E. subst. apply Z.eqb_refl.
-  - apply Nat.eqb_neq in E. apply Z.eqb_neq. lia.
-Qed.
-
-Lemma gtv_f0 tc cp : tc <= q -> comp_ok tc cp ->
-  generate_trial_values en cp (Z.of_nat tc) [] = ROk (spec_tvs tc cp).
-Proof.
-  intros Hle Hok. destruct cp as [[c0 c1] c2]. destruct Hok as (Hc0 & Hc1 & Hc2).
-  destruct (perm_of_spec tc c0 Hle Hc0) as (Hp & Hpl & [Hpnd Hpb] & _).
-  unfold generate_trial_values. unfold jth_permutation_indices, q_instances.
-  cbn [en_base f0_enum eb_m eb_unweighted eb_instances f0_base]. cbn [Z.eqb Pos.eqb andb].
-  rewrite f0_instances_length by exact HF. rewrite Hp. cbn [lift rbind].
-  set (perm := perm_of tc c0) in *.
-  (* the permutation *)
-  assert (Hperm : rmap (zindex inst) perm = ROk (map (fun p => nth (Z.to_nat p) inst []) perm)).
-  { apply rmap_ok_map. intros p Hpin. rewrite Forall_forall in Hpb. specialize (Hpb p Hpin).
-    apply zindex_some; [lia|]. apply nth_error_nth_ok. rewrite f0_instances_length by exact HF. lia. }
-  rewrite Hperm. cbn [rbind].
-  (* the source combinations: always the empty one *)
-  assert (Hsrc : rmap (fun ip : Z * Z => let '(i, p) := ip in
-                         cp <-- zindex c1 (if full_round en (Z.of_nat tc) then p else i) ;;;
-                         vp <-- zindex (en_valid en) p ;;;
-                         si <-- zindex vp cp ;;;
-                         of_opt IndexError (nth_error (eb_sources (f0_base fb)) si))
-                      (enumerate_from 0 perm) = ROk (map (fun _ => ([] : asg)) (enumerate_from 0 perm))).
-  { apply rmap_ok_map. intros [i p] Hip. apply enumerate_from_In in Hip.
-    destruct Hip as (k & Hk & Hi & Hn). cbn [fst snd] in Hi, Hn.
-    assert (Hpin : In p perm) by (eapply nth_error_In; exact Hn).
-    rewrite Forall_forall in Hpb. specialize (Hpb p Hpin).
-    rewrite full_round_f0. subst c1.
-    assert (Hz : zindex (zeros (if tc =? q then q else tc)) (if tc =? q then p else i) = ROk 0%Z).
-    { apply zindex_some; [destruct (tc =? q); lia|].
-      rewrite nth_error_nth_ok with (d := 0%Z); [rewrite nth_zeros; reflexivity|].
-      rewrite zeros_length. destruct (tc =? q) eqn:E; [lia|]. subst i. rewrite Hpl in Hk. lia. }
-    rewrite Hz. cbn [rbind]. cbn [en_valid f0_enum].
-    assert (Hv : zindex (map (fun _ : asg => [0]) inst) p = ROk [0]).
-    { apply zindex_some; [lia|].
-      apply (map_nth_error (fun _ : asg => [0]) (Z.to_nat p) inst (d := nth (Z.to_nat p) inst [])).
-      apply nth_error_nth_ok. rewrite f0_instances_length by exact HF. lia. }
-    rewrite Hv. cbn [rbind]. reflexivity. }
-  rewrite Hsrc. cbn [rbind].
-  (* the independent factors *)
-  cbn [en_ind_levels f0_enum]. rewrite Nat2Z.id.
-  assert (Hinds : rmap (fun jf : Z * (nat * list nat) => let '(j, (fi, levels)) := jf in
-                          idx <-- zindex c2 j ;;;
-                          combo <-- lift (compute_jth_combination (Z.of_nat tc) (Z.of_nat (length levels)) idx) ;;;
-                          row <-- rmap (fun i => d <-- zindex combo (Z.of_nat i) ;;; zindex levels d)
-                                       (seq 0 tc) ;;;
-                          ROk (fi, row))
-                       (enumerate_from 0 (map (fun f => (f, f0_L fb f)) ubi)) = ROk (ind_rows tc c2)).
-  { pose proof (Forall2_length' _ _ _ Hc2) as Hlen.
-    assert (G : forall (us : list nat) (cs : list Z),
-               Forall2 (fun f idx => (0 <= idx < Z.of_nat (length (f0_L fb f)) ^ Z.of_nat tc)%Z) us cs ->
-               forall j0 : Z, (0 <= j0)%Z -> (forall k, k < length cs -> nth_error c2 (Z.to_nat j0 + k) = nth_error cs k) ->
-               rmap (fun jf : Z * (nat * list nat) => let '(j, (fi, levels)) := jf in
-                          idx <-- zindex c2 j ;;;
-                          combo <-- lift (compute_jth_combination (Z.of_nat tc) (Z.of_nat (length levels)) idx) ;;;
-                          row <-- rmap (fun i => d <-- zindex combo (Z.of_nat i) ;;; zindex levels d)
-                                       (seq 0 tc) ;;;
-                          ROk (fi, row))
-                    (enumerate_from j0 (map (fun f => (f, f0_L fb f)) us)) =
-               ROk (map (fun fi => (fst fi, map (lv_of (fst fi)) (combo_of tc (length (f0_L fb (fst fi))) (snd fi)))) (combine us cs))).
-    { induction 1 as [|f idx us' cs' Hidx Hrest IH]; intros j0 Hj0 Hnth; [reflexivity|].
-      cbn [map enumerate_from rmap combine fst snd].
-      assert (Hz : zindex c2 j0 = ROk idx).
-      { apply zindex_some; [lia|]. specialize (Hnth 0 ltac:(cbn; lia)). rewrite Nat.add_0_r in Hnth. exact Hnth. }
-      rewrite Hz. cbn [rbind].
-      destruct (combo_of_spec tc (length (f0_L fb f)) idx Hidx) as (Hc & Hcl & Hcd & _).
-      rewrite Hc. cbn [lift rbind].
-      assert (Hrow : rmap (fun i => d <-- zindex (combo_of tc (length (f0_L fb f)) idx) (Z.of_nat i) ;;; zindex (f0_L fb f) d)
-                          (seq 0 tc) = ROk (map (lv_of f) (combo_of tc (length (f0_L fb f)) idx))).
-      { rewrite (map_via_seq (lv_of f) (combo_of tc (length (f0_L fb f)) idx) 0%Z), Hcl.
-        apply rmap_ok_map. intros i Hi. apply in_seq in Hi.
-        rewrite zindex_nat. rewrite nth_error_nth_ok with (d := 0%Z) by lia. cbn [of_opt rbind].
-        apply zindex_nth_ok. apply Forall_nth'; [exact Hcd | lia]. }
-      rewrite Hrow. cbn [rbind].
-      rewrite (IH (j0 + 1)%Z) by (try lia; intros k Hk; specialize (Hnth (S k) ltac:(cbn; lia)); cbn in Hnth;
-                                  rewrite <- Hnth; f_equal; lia).
-      reflexivity. }
-    unfold ind_rows. apply (G ubi c2 Hc2 0%Z); [lia | intros k _; reflexivity]. }
-  rewrite Hinds. cbn [rbind].
-  (* the trials *)
-  unfold spec_tvs. apply rmap_ok_map. intros t Ht. apply in_seq in Ht.
-  rewrite nth_error_map. rewrite nth_error_nth_ok with (d := 0%Z) by lia. cbn [option_map of_opt rbind].
-  rewrite nth_error_map.
-  assert (He : nth_error (enumerate_from 0 perm) t = Some ((0 + Z.of_nat t)%Z, nth t perm 0%Z)).
-  { rewrite nth_error_nth_ok with (d := (0%Z, 0%Z)).
-    - rewrite enumerate_from_nth by lia. reflexivity.
-    - rewrite enumerate_from_combine, combine_length, map_length, seq_length. lia. }
-  rewrite He. cbn [option_map of_opt rbind app]. reflexivity.
-Qed.
 
 
 (** * The factors: crossed ones and independent ones *)
@@ -319,12 +226,12 @@ Proof.
   rewrite <- (map_fst_combine ubi c2) at 2 by lia. reflexivity.
 Qed.
 
-Lemma spec_tv_keys tc cp t : tc <= q -> comp_ok tc cp -> t < tc ->
+Lemma spec_tv_keys tc cp t : tc <= C -> comp_ok tc cp -> t < tc ->
   let '(c0, _, c2) := cp in
   map fst (spec_tv (perm_of tc c0) (ind_rows tc c2) t) = K.
 Proof.
-  intros Hle Hok Ht. destruct cp as [[c0 c1] c2]. destruct Hok as (Hc0 & _ & Hc2).
-  destruct (perm_of_spec tc c0 Hle Hc0) as (_ & Hpl & [_ Hpb] & _).
+  intros Hle Hok Ht. destruct cp as [[c0 c1] c2]. destruct Hok as (Hc0 & Hdef & _ & Hc2).
+  destruct (perm_of_spec tc c0 Hle Hc0 Hdef) as (_ & Hpl & Hpb & _).
   unfold spec_tv. rewrite map_app.
   assert (Hj : Z.to_nat (nth t (perm_of tc c0) 0%Z) < q).
   { pose proof (Forall_nth' _ _ t 0%Z Hpb ltac:(lia)) as H. cbv beta in H. lia. }
@@ -338,13 +245,13 @@ Definition crossed_level (perm : list Z) (i t : nat) : nat :=
   nth i (nth (Z.to_nat (nth t perm 0%Z)) prod []) 0.
 
 
-Lemma alookup_spec_tv_crossed tc cp t i g : tc <= q -> comp_ok tc cp -> t < tc ->
+Lemma alookup_spec_tv_crossed tc cp t i g : tc <= C -> comp_ok tc cp -> t < tc ->
   nth_error c i = Some g ->
   let '(c0, _, c2) := cp in
   alookup (spec_tv (perm_of tc c0) (ind_rows tc c2) t) g = Some (crossed_level (perm_of tc c0) i t).
 Proof.
-  intros Hle Hok Ht Hi. destruct cp as [[c0 c1] c2]. destruct Hok as (Hc0 & _ & Hc2).
-  destruct (perm_of_spec tc c0 Hle Hc0) as (_ & Hpl & [_ Hpb] & _).
+  intros Hle Hok Ht Hi. destruct cp as [[c0 c1] c2]. destruct Hok as (Hc0 & Hdef & _ & Hc2).
+  destruct (perm_of_spec tc c0 Hle Hc0 Hdef) as (_ & Hpl & Hpb & _).
   assert (Hj : Z.to_nat (nth t (perm_of tc c0) 0%Z) < q).
   { pose proof (Forall_nth' _ _ t 0%Z Hpb ltac:(lia)) as H. cbv beta in H. lia. }
   unfold spec_tv. rewrite alookup_app. rewrite nth_inst by exact Hj.
@@ -359,13 +266,13 @@ Qed.
 Definition ind_level (tc : nat) (c2 : list Z) (j t : nat) : nat :=
   lv_of (nth j ubi 0) (nth t (combo_of tc (length (f0_L fb (nth j ubi 0))) (nth j c2 0%Z)) 0%Z).
 
-Lemma alookup_spec_tv_ind tc cp t j g : tc <= q -> comp_ok tc cp -> t < tc ->
+Lemma alookup_spec_tv_ind tc cp t j g : tc <= C -> comp_ok tc cp -> t < tc ->
   nth_error ubi j = Some g ->
   let '(c0, _, c2) := cp in
   alookup (spec_tv (perm_of tc c0) (ind_rows tc c2) t) g = Some (ind_level tc c2 j t).
 Proof.
-  intros Hle Hok Ht Hj. destruct cp as [[c0 c1] c2]. destruct Hok as (Hc0 & _ & Hc2).
-  destruct (perm_of_spec tc c0 Hle Hc0) as (_ & Hpl & [_ Hpb] & _).
+  intros Hle Hok Ht Hj. destruct cp as [[c0 c1] c2]. destruct Hok as (Hc0 & Hdef & _ & Hc2).
+  destruct (perm_of_spec tc c0 Hle Hc0 Hdef) as (_ & Hpl & Hpb & _).
   assert (Hjq : Z.to_nat (nth t (perm_of tc c0) 0%Z) < q).
   { pose proof (Forall_nth' _ _ t 0%Z Hpb ltac:(lia)) as H. cbv beta in H. lia. }
   pose proof (Forall2_length' _ _ _ Hc2) as Hlen.
@@ -396,7 +303,7 @@ Definition round_row (tc : nat) (cp : comp) (g : nat) : list (option nat) := cel
 
 
 
-Lemma round_row_crossed tc cp i g : tc <= q -> comp_ok tc cp -> nth_error c i = Some g ->
+Lemma round_row_crossed tc cp i g : tc <= C -> comp_ok tc cp -> nth_error c i = Some g ->
   round_row tc cp g = map (fun t => Some (crossed_level (perm_of tc (fst (fst cp))) i t)) (seq 0 tc).
 Proof.
   intros Hle Hok Hi. unfold round_row. destruct cp as [[c0 c1] c2]. cbn [fst spec_tvs].
@@ -404,7 +311,7 @@ Proof.
   apply (alookup_spec_tv_crossed tc (c0, c1, c2) t i g Hle Hok ltac:(lia) Hi).
 Qed.
 
-Lemma round_row_ind tc cp j g : tc <= q -> comp_ok tc cp -> nth_error ubi j = Some g ->
+Lemma round_row_ind tc cp j g : tc <= C -> comp_ok tc cp -> nth_error ubi j = Some g ->
   round_row tc cp g = map (fun t => Some (ind_level tc (snd cp) j t)) (seq 0 tc).
 Proof.
   intros Hle Hok Hj. unfold round_row. destruct cp as [[c0 c1] c2]. cbn [snd spec_tvs].
@@ -412,7 +319,7 @@ Proof.
   apply (alookup_spec_tv_ind tc (c0, c1, c2) t j g Hle Hok ltac:(lia) Hj).
 Qed.
 
-Lemma round_row_outside tc cp g : tc <= q -> comp_ok tc cp -> ~ In g K -> round_row tc cp g = [].
+Lemma round_row_outside tc cp g : tc <= C -> comp_ok tc cp -> ~ In g K -> round_row tc cp g = [].
 Proof.
   intros Hle Hok Hg. unfold round_row. destruct cp as [[c0 c1] c2]. cbn [spec_tvs].
   apply cells_for_none. intros t Ht. apply in_seq in Ht.
@@ -420,7 +327,7 @@ Proof.
   rewrite Hk. exact Hg.
 Qed.
 
-Lemma round_row_length tc cp g : tc <= q -> comp_ok tc cp -> In g K -> length (round_row tc cp g) = tc.
+Lemma round_row_length tc cp g : tc <= C -> comp_ok tc cp -> In g K -> length (round_row tc cp g) = tc.
 Proof.
   intros Hle Hok Hg. apply in_app_iff in Hg. destruct Hg as [Hg | Hg].
   - apply In_nth_error in Hg. destruct Hg as [i Hi]. rewrite (round_row_crossed tc cp i g Hle Hok Hi).
@@ -429,7 +336,7 @@ Proof.
     rewrite map_length, seq_length. reflexivity.
 Qed.
 
-Lemma spec_tvs_nodup tc cp tv : tc <= q -> comp_ok tc cp -> In tv (spec_tvs tc cp) -> NoDup (map fst tv).
+Lemma spec_tvs_nodup tc cp tv : tc <= C -> comp_ok tc cp -> In tv (spec_tvs tc cp) -> NoDup (map fst tv).
 Proof.
   intros Hle Hok Hin. destruct cp as [[c0 c1] c2]. cbn [spec_tvs] in Hin.
   apply in_map_iff in Hin. destruct Hin as [t [E Ht]]. apply in_seq in Ht. subst tv.
@@ -438,7 +345,7 @@ Proof.
 Qed.
 
 (** the run of one round *)
-Lemma round_run tc cp : tc <= q -> 0 < tc -> comp_ok tc cp ->
+Lemma round_run tc cp : tc <= C -> 0 < tc -> comp_ok tc cp ->
   let rnd := experiment_of (spec_tvs tc cp) in
   NoDup (map fst rnd) /\ (forall g, row_of_run rnd g = round_row tc cp g) /\
   (forall g, rlookup rnd g <> None <-> In g K).
@@ -454,14 +361,14 @@ Qed.
 
 (** * A whole key *)
 Definition key_ok (k : key) : Prop :=
-  k_pre k = 0%Z /\ length (k_rounds k) = f0_rounds fb /\ Forall (comp_ok q) (k_rounds k) /\
+  k_pre k = 0%Z /\ length (k_rounds k) = f0_rounds fb /\ Forall (comp_ok C) (k_rounds k) /\
   match k_left k with
   | None => f0_leftover fb = 0
   | Some cp => f0_leftover fb <> 0 /\ comp_ok (f0_leftover fb) cp
   end.
 
 Definition decoded_row (k : key) (g : nat) : list (option nat) :=
-  flat_map (fun cp => round_row q cp g) (k_rounds k) ++
+  flat_map (fun cp => round_row C cp g) (k_rounds k) ++
   match k_left k with Some cp => round_row (f0_leftover fb) cp g | None => [] end.
 
 Lemma fold_combine (rnds : list run) : forall r0 : run,
@@ -483,45 +390,229 @@ Proof.
     exists r. split; [exact Hf|]. intros g. rewrite Hrow, Hrows. cbn [flat_map]. rewrite app_assoc. reflexivity.
 Qed.
 
-Lemma f0_leftover_lt : f0_leftover fb < q.
-Proof. unfold f0_leftover. apply Nat.mod_upper_bound. lia. Qed.
+End F0D.
 
-Lemma decode_f0 k : key_ok k ->
-  exists r, decode_with fb en k = ROk r /\ forall g, row_of_run r g = decoded_row k g.
+(** * The model on a key: [generate_trial_values] and [decode_with]
+
+    [perm_def]: the permutation unranker of the model returns the word of the
+    index (without weights always; with weights whenever the memoised unranker
+    returns at all, see [jth_link]).  [memos_ok m lm]: the two memo tables of an
+    enumerator are valid and the unranker is defined on them for every index
+    [all_keys] draws from. *)
+Definition perm_def (fb : flat) (tc : nat) (memo : memo_t) (j : Z) : Prop :=
+  jth_permutation_indices (f0_base fb) (Z.of_nat (f0_q fb)) (Z.of_nat tc) j memo = ROk (perm_of fb tc j).
+
+Record memos_ok (fb : flat) (m lm : memo_t) : Prop := {
+  mo_m : f0_memo_ok fb m;
+  mo_lm : f0_memo_ok fb lm;
+  mo_full : forall j, (0 <= j < f0_N fb (f0_C fb))%Z -> perm_def fb (f0_C fb) m j;
+  mo_left : f0_leftover fb <> 0 -> forall j, (0 <= j < f0_N fb (f0_leftover fb))%Z -> perm_def fb (f0_leftover fb) lm j
+}.
+
+Section F0J.
+Variable fb : flat.
+Hypothesis HF : frag2 fb = true.
+
+Local Notation q := (f0_q fb).
+Local Notation C := (f0_C fb).
+Local Notation cws := (f0_cws fb).
+
+(** what the model's unranker returns is the word of the reference unranker *)
+Lemma jth_link tc memo j p : f0_memo_ok fb memo -> (0 <= j < f0_N fb tc)%Z ->
+  jth_permutation_indices (f0_base fb) (Z.of_nat q) (Z.of_nat tc) j memo = ROk p -> p_U cws tc j = Some p.
 Proof.
-  intros (Hpre & Hlen & Hrounds & Hleft). unfold decode_with.
+  intros Hm Hj Hrun. unfold jth_permutation_indices in Hrun. cbn [eb_m eb_unweighted eb_moc f0_base] in Hrun.
+  cbn [Z.eqb Pos.eqb andb] in Hrun. unfold p_U. fold (f0_unw fb). rewrite (f0_cws_length fb HF).
+  destruct (f0_unw fb) eqn:Hu.
+  - destruct (compute_jth_permutation_prefix (Z.of_nat q) (Z.of_nat tc) j) as [p'|e]; [|discriminate].
+    cbn [lift] in Hrun. inversion Hrun. reflexivity.
+  - unfold f0_moc in Hrun. rewrite Hu in Hrun. cbn [compute_jth_prefix_of_permutations_with_copies] in Hrun.
+    destruct (k_prefixes_of_permutations_with_copies (Z.of_nat q) (Counters cws) (Z.of_nat tc) j memo) as [[v memo']|e] eqn:Ek;
+      [|discriminate]. cbn [lift rbind] in Hrun.
+    rewrite (f0_N_w fb HF tc Hu) in Hj.
+    destruct (StackProofs.k_prefixes_unrank_refines (Z.of_nat q) (Counters cws) (Z.of_nat tc) memo j v memo'
+                (f0_params_ok fb HF) ltac:(lia) (Hm Hu) Hj Ek) as [(wd & Hv & Hun) _].
+    subst v. cbn [kperm fst] in Hrun. inversion Hrun; subst p. exact Hun.
+Qed.
+
+Lemma perm_def_U tc memo j : f0_memo_ok fb memo -> (0 <= j < f0_N fb tc)%Z -> perm_def fb tc memo j ->
+  p_U cws tc j <> None.
+Proof. intros Hm Hj Hd. rewrite (jth_link tc memo j _ Hm Hj Hd). discriminate. Qed.
+
+(** without weights the unranker is total *)
+Lemma perm_def_unw tc memo j : f0_unw fb = true -> tc <= C -> (0 <= j < f0_N fb tc)%Z -> perm_def fb tc memo j.
+Proof.
+  intros Hu Hle Hj. unfold perm_def, jth_permutation_indices. cbn [eb_m eb_unweighted f0_base Z.eqb Pos.eqb andb].
+  rewrite Hu. destruct (p_U_total cws tc j Hu ltac:(rewrite (f0_p_C fb HF); exact Hle) Hj) as [p Hp].
+  unfold perm_of. rewrite Hp. unfold p_U in Hp. fold (f0_unw fb) in Hp. rewrite Hu, (f0_cws_length fb HF) in Hp.
+  destruct (compute_jth_permutation_prefix (Z.of_nat q) (Z.of_nat tc) j) as [p'|e]; [|discriminate].
+  inversion Hp. reflexivity.
+Qed.
+
+Lemma memos_ok_unw : f0_unw fb = true -> memos_ok fb [] [].
+Proof.
+  intros Hu. constructor; try apply (f0_memo_nil fb HF).
+  - intros j Hj. apply perm_def_unw; [exact Hu | apply le_n | exact Hj].
+  - intros _ j Hj. apply perm_def_unw; [exact Hu | apply Nat.lt_le_incl, (f0_leftover_lt fb HF) | exact Hj].
+Qed.
+
+End F0J.
+
+Section F0M.
+Variable fb : flat.
+Hypothesis HF : frag2 fb = true.
+Variables m lm : memo_t.
+Hypothesis HM : memos_ok fb m lm.
+
+Local Notation Hq := (f0_q_pos fb HF).
+Local Notation c := (the_crossing fb).
+Local Notation n := (length (fl_design fb)).
+Local Notation q := (f0_q fb).
+Local Notation C := (f0_C fb).
+Local Notation cws := (f0_cws fb).
+Local Notation inst := (f0_instances fb).
+Local Notation ubi := (f0_ubi fb).
+Local Notation en := (f0_enum fb m lm).
+Local Notation K := (the_crossing fb ++ f0_ubi fb).
+
+Lemma full_round_f0 tc : full_round en (Z.of_nat tc) = (tc =? q) && f0_unw fb.
+Proof.
+  unfold full_round, q_instances. cbn [en_base f0_enum eb_instances f0_base eb_unweighted].
+  rewrite f0_instances_length by exact HF. f_equal.
+  destruct (tc =? q) eqn:E.
+  - apply Nat.eqb_eq in E. subst. apply Z.eqb_refl.
+  - apply Nat.eqb_neq in E. apply Z.eqb_neq. lia.
+Qed.
+
+Lemma gtv_f0 tc memo cp : tc <= C -> comp_ok fb tc cp -> perm_def fb tc memo (fst (fst cp)) ->
+  generate_trial_values en cp (Z.of_nat tc) memo = ROk (spec_tvs fb tc cp).
+Proof.
+  intros Hle Hok Hdef. destruct cp as [[c0 c1] c2]. destruct Hok as (Hc0 & HU & Hc1 & Hc2). cbn [fst] in Hdef.
+  destruct (perm_of_spec fb HF Hq tc c0 Hle Hc0 HU) as (_ & Hpl & Hpb & _).
+  unfold generate_trial_values. unfold q_instances.
+  cbn [en_base f0_enum eb_instances f0_base].
+  rewrite f0_instances_length by exact HF. unfold perm_def in Hdef. rewrite Hdef. cbn [rbind].
+  set (perm := perm_of fb tc c0) in *.
+  (* the permutation *)
+  assert (Hperm : rmap (zindex inst) perm = ROk (map (fun p => nth (Z.to_nat p) inst []) perm)).
+  { apply rmap_ok_map. intros p Hpin. rewrite Forall_forall in Hpb. specialize (Hpb p Hpin).
+    apply zindex_some; [lia|]. apply nth_error_nth_ok. rewrite f0_instances_length by exact HF. lia. }
+  rewrite Hperm. cbn [rbind].
+  (* the source combinations: always the empty one *)
+  assert (Hsrc : rmap (fun ip : Z * Z => let '(i, p) := ip in
+                         cp <-- zindex c1 (if full_round en (Z.of_nat tc) then p else i) ;;;
+                         vp <-- zindex (en_valid en) p ;;;
+                         si <-- zindex vp cp ;;;
+                         of_opt IndexError (nth_error (eb_sources (f0_base fb)) si))
+                      (enumerate_from 0 perm) = ROk (map (fun _ => ([] : asg)) (enumerate_from 0 perm))).
+  { apply rmap_ok_map. intros [i p] Hip. apply enumerate_from_In in Hip.
+    destruct Hip as (k & Hk & Hi & Hn). cbn [fst snd] in Hi, Hn.
+    assert (Hpin : In p perm) by (eapply nth_error_In; exact Hn).
+    rewrite Forall_forall in Hpb. specialize (Hpb p Hpin).
+    rewrite full_round_f0. subst c1.
+    assert (Hz : zindex (zeros tc) (if (tc =? q) && f0_unw fb then p else i) = ROk 0%Z).
+    { apply zindex_some; [destruct ((tc =? q) && f0_unw fb); lia|].
+      rewrite nth_error_nth_ok with (d := 0%Z); [rewrite nth_zeros; reflexivity|].
+      rewrite zeros_length. destruct (tc =? q) eqn:E; cbn [andb].
+      - apply Nat.eqb_eq in E. destruct (f0_unw fb); [lia | subst i; rewrite Hpl in Hk; lia].
+      - subst i. rewrite Hpl in Hk. lia. }
+    rewrite Hz. cbn [rbind]. cbn [en_valid f0_enum].
+    assert (Hv : zindex (map (fun _ : asg => [0]) inst) p = ROk [0]).
+    { apply zindex_some; [lia|].
+      apply (map_nth_error (fun _ : asg => [0]) (Z.to_nat p) inst (d := nth (Z.to_nat p) inst [])).
+      apply nth_error_nth_ok. rewrite f0_instances_length by exact HF. lia. }
+    rewrite Hv. cbn [rbind]. reflexivity. }
+  rewrite Hsrc. cbn [rbind].
+  (* the independent factors *)
+  cbn [en_ind_levels f0_enum]. rewrite Nat2Z.id.
+  assert (Hinds : rmap (fun jf : Z * (nat * list nat) => let '(j, (fi, levels)) := jf in
+                          idx <-- zindex c2 j ;;;
+                          combo <-- lift (compute_jth_combination (Z.of_nat tc) (Z.of_nat (length levels)) idx) ;;;
+                          row <-- rmap (fun i => d <-- zindex combo (Z.of_nat i) ;;; zindex levels d)
+                                       (seq 0 tc) ;;;
+                          ROk (fi, row))
+                       (enumerate_from 0 (map (fun f => (f, f0_L fb f)) ubi)) = ROk (ind_rows fb tc c2)).
+  { pose proof (Forall2_length' _ _ _ Hc2) as Hlen.
+    assert (G : forall (us : list nat) (cs : list Z),
+               Forall2 (fun f idx => (0 <= idx < Z.of_nat (length (f0_L fb f)) ^ Z.of_nat tc)%Z) us cs ->
+               forall j0 : Z, (0 <= j0)%Z -> (forall k, k < length cs -> nth_error c2 (Z.to_nat j0 + k) = nth_error cs k) ->
+               rmap (fun jf : Z * (nat * list nat) => let '(j, (fi, levels)) := jf in
+                          idx <-- zindex c2 j ;;;
+                          combo <-- lift (compute_jth_combination (Z.of_nat tc) (Z.of_nat (length levels)) idx) ;;;
+                          row <-- rmap (fun i => d <-- zindex combo (Z.of_nat i) ;;; zindex levels d)
+                                       (seq 0 tc) ;;;
+                          ROk (fi, row))
+                    (enumerate_from j0 (map (fun f => (f, f0_L fb f)) us)) =
+               ROk (map (fun fi => (fst fi, map (lv_of fb (fst fi)) (combo_of tc (length (f0_L fb (fst fi))) (snd fi)))) (combine us cs))).
+    { induction 1 as [|f idx us' cs' Hidx Hrest IH]; intros j0 Hj0 Hnth; [reflexivity|].
+      cbn [map enumerate_from rmap combine fst snd].
+      assert (Hz : zindex c2 j0 = ROk idx).
+      { apply zindex_some; [lia|]. specialize (Hnth 0 ltac:(cbn; lia)). rewrite Nat.add_0_r in Hnth. exact Hnth. }
+      rewrite Hz. cbn [rbind].
+      destruct (combo_of_spec fb HF Hq tc (length (f0_L fb f)) idx Hidx) as (Hc & Hcl & Hcd & _).
+      rewrite Hc. cbn [lift rbind].
+      assert (Hrow : rmap (fun i => d <-- zindex (combo_of tc (length (f0_L fb f)) idx) (Z.of_nat i) ;;; zindex (f0_L fb f) d)
+                          (seq 0 tc) = ROk (map (lv_of fb f) (combo_of tc (length (f0_L fb f)) idx))).
+      { rewrite (map_via_seq (lv_of fb f) (combo_of tc (length (f0_L fb f)) idx) 0%Z), Hcl.
+        apply rmap_ok_map. intros i Hi. apply in_seq in Hi.
+        rewrite zindex_nat. rewrite nth_error_nth_ok with (d := 0%Z) by lia. cbn [of_opt rbind].
+        apply zindex_nth_ok. apply Forall_nth'; [exact Hcd | lia]. }
+      rewrite Hrow. cbn [rbind].
+      rewrite (IH (j0 + 1)%Z) by (try lia; intros k Hk; specialize (Hnth (S k) ltac:(cbn; lia)); cbn in Hnth;
+                                  rewrite <- Hnth; f_equal; lia).
+      reflexivity. }
+    unfold ind_rows. apply (G ubi c2 Hc2 0%Z); [lia | intros k _; reflexivity]. }
+  rewrite Hinds. cbn [rbind].
+  (* the trials *)
+  unfold spec_tvs. apply rmap_ok_map. intros t Ht. apply in_seq in Ht.
+  rewrite nth_error_map. rewrite nth_error_nth_ok with (d := 0%Z) by lia. cbn [option_map of_opt rbind].
+  rewrite nth_error_map.
+  assert (He : nth_error (enumerate_from 0 perm) t = Some ((0 + Z.of_nat t)%Z, nth t perm 0%Z)).
+  { rewrite nth_error_nth_ok with (d := (0%Z, 0%Z)).
+    - rewrite enumerate_from_nth by lia. reflexivity.
+    - rewrite enumerate_from_combine, combine_length, map_length, seq_length. lia. }
+  rewrite He. cbn [option_map of_opt rbind app]. reflexivity.
+Qed.
+
+Lemma decode_f0 k : key_ok fb k ->
+  exists r, decode_with fb en k = ROk r /\ forall g, row_of_run r g = decoded_row fb k g.
+Proof.
+  intros (Hpre & Hlen & Hrounds & Hleft). unfold decode_with. pose proof (f0_C_pos fb HF) as HC.
+  pose proof (f0_leftover_lt fb HF) as Hlo.
   unfold generate_preamble_sample. cbn [en_base f0_enum eb_preamble f0_base Z.eqb]. rewrite Hpre. cbn [Z.eqb rbind].
   cbn [en_base f0_enum eb_csize f0_base en_memo en_leftover en_lmemo eb_sorted_ucd].
-  assert (Hrs : rmap (fun c0 : comp => tvs <-- generate_trial_values en c0 (Z.of_nat q) [] ;;; ROk (experiment_of tvs))
-                     (k_rounds k) = ROk (map (fun cp => experiment_of (spec_tvs q cp)) (k_rounds k))).
+  assert (Hrs : rmap (fun c0 : comp => tvs <-- generate_trial_values en c0 (Z.of_nat C) m ;;; ROk (experiment_of tvs))
+                     (k_rounds k) = ROk (map (fun cp => experiment_of (spec_tvs fb C cp)) (k_rounds k))).
   { apply rmap_ok_map. intros cp Hcp. rewrite Forall_forall in Hrounds.
-    rewrite (gtv_f0 q cp (le_n _) (Hrounds cp Hcp)). reflexivity. }
+    rewrite (gtv_f0 C m cp (le_n _) (Hrounds cp Hcp)); [reflexivity|].
+    apply (mo_full fb m lm HM). destruct cp as [[c0 c1] c2]. apply (Hrounds _ Hcp). }
   rewrite Hrs. cbn [rbind].
-  set (ls := match k_left k with Some cp => [experiment_of (spec_tvs (f0_leftover fb) cp)] | None => [] end).
+  set (ls := match k_left k with Some cp => [experiment_of (spec_tvs fb (f0_leftover fb) cp)] | None => [] end).
   assert (Hls : match k_left k with
-                | Some c0 => tvs <-- generate_trial_values en c0 (Z.of_nat (f0_leftover fb)) [] ;;; ROk [experiment_of tvs]
+                | Some c0 => tvs <-- generate_trial_values en c0 (Z.of_nat (f0_leftover fb)) lm ;;; ROk [experiment_of tvs]
                 | None => ROk []
                 end = ROk ls).
-  { unfold ls. destruct (k_left k) as [cp|]; [|reflexivity]. destruct Hleft as [_ Hok].
-    rewrite (gtv_f0 _ cp (Nat.lt_le_incl _ _ f0_leftover_lt) Hok). reflexivity. }
+  { unfold ls. destruct (k_left k) as [cp|]; [|reflexivity]. destruct Hleft as [Hne Hok].
+    rewrite (gtv_f0 _ lm cp (Nat.lt_le_incl _ _ Hlo) Hok); [reflexivity|].
+    apply (mo_left fb m lm HM Hne). destruct cp as [[c0 c1] c2]. apply Hok. }
   rewrite Hls. cbn [rbind].
-  destruct (fold_combine (map (fun cp => experiment_of (spec_tvs q cp)) (k_rounds k) ++ ls) []) as [r [Hf Hrow]].
+  destruct (fold_combine fb HF Hq (map (fun cp => experiment_of (spec_tvs fb C cp)) (k_rounds k) ++ ls) []) as [r [Hf Hrow]].
   { intros rnd Hin. apply in_app_iff in Hin. destruct Hin as [Hin | Hin].
     - apply in_map_iff in Hin. destruct Hin as [cp [E Hcp]]. subst rnd. rewrite Forall_forall in Hrounds.
-      destruct (round_run q cp (le_n _) Hq (Hrounds cp Hcp)) as (H1 & _ & H3). split; assumption.
+      destruct (round_run fb HF Hq C cp (le_n _) HC (Hrounds cp Hcp)) as (H1 & _ & H3). split; assumption.
     - unfold ls in Hin. destruct (k_left k) as [cp|]; [|destruct Hin]. destruct Hin as [E | []]. subst rnd.
       destruct Hleft as [Hne Hok].
-      destruct (round_run _ cp (Nat.lt_le_incl _ _ f0_leftover_lt) ltac:(lia) Hok) as (H1 & _ & H3). split; assumption. }
+      destruct (round_run fb HF Hq _ cp (Nat.lt_le_incl _ _ Hlo) ltac:(lia) Hok) as (H1 & _ & H3). split; assumption. }
   { left. reflexivity. }
   exists r. split; [rewrite Hf; reflexivity|].
   intros g. rewrite Hrow. unfold row_of_run at 1. cbn [rlookup find app]. unfold decoded_row.
   rewrite flat_map_app. f_equal.
-  - clear - Hrounds HF Hq. induction (k_rounds k) as [|cp rest IH]; [reflexivity|].
+  - clear - Hrounds HF HC. induction (k_rounds k) as [|cp rest IH]; [reflexivity|].
     inversion Hrounds as [|? ? Hcp Hrest]; subst. cbn [map flat_map]. rewrite (IH Hrest). f_equal.
-    destruct (round_run q cp (le_n _) Hq Hcp) as (_ & H2 & _). apply H2.
+    destruct (round_run fb HF Hq C cp (le_n _) HC Hcp) as (_ & H2 & _). apply H2.
   - unfold ls. destruct (k_left k) as [cp|]; [|reflexivity]. destruct Hleft as [Hne Hok].
     cbn [flat_map]. rewrite app_nil_r.
-    destruct (round_run _ cp (Nat.lt_le_incl _ _ f0_leftover_lt) ltac:(lia) Hok) as (_ & H2 & _). apply H2.
+    destruct (round_run fb HF Hq _ cp (Nat.lt_le_incl _ _ Hlo) ltac:(lia) Hok) as (_ & H2 & _). apply H2.
 Qed.
 
-End F0D.
+End F0M.
